@@ -534,12 +534,19 @@ def rule_r4(ctx):
         raise AnalysisError("C04-R4: no hole below FormattedValue.format_spec found (the spec is not rendered?)")
     else:
         rr.ok("quote|format_spec", sample={"rule": "C04-R4", "format_spec": "rendered in line under the enclosing quote", "holes_below_spec": n_spec})
+    # does the renderer refuse a field whose text contains the quote of the enclosing f-string?
+    # (then a re-used quote never reaches the output: the script is rejected instead)
+    jp = ctx.ustr.paths("JoinedStr")
+    qt = [p for p in jp if any(k.startswith("contains:") and "<qm>" in k and v is True for k, v in p.assign.items())]
+    refuses_outer_quote = bool(qt) and all(p.outcome == "raise" for p in qt)
     # only two quote characters: nesting depth 3 re-uses the outermost quote
     rr.instances += 1
     quotes = set()
     for v in q.values():
         quotes |= v
-    if len(quotes) <= 2:
+    if refuses_outer_quote:
+        rr.ok("quotes|depth", sample={"rule": "C04-R4", "verdict": "a field that contains the enclosing quote is refused"})
+    elif len(quotes) <= 2:
         rr.fail(
             "C04-R4|_Node|two-quotes|depth-3",
             f"{fi.where()}: nested string literals alternate between only {sorted(quotes)}: a literal at nesting depth 3 re-uses the quote of the outermost f-string (`f'{{f\"{{'x'}}\"}}'`), which Python < 3.12 cannot lex; the source may nest 4 deep with triple quotes",
@@ -552,7 +559,9 @@ def rule_r4(ctx):
     U = ctx.ustr
     paths = [p for p in U.paths("Constant") if p.outcome == "ok"]
     bytes_repr = [p for p in paths if isinstance(p.result, StrOp) and _mentions(p.result, "repr") and not any(k.startswith("isinstance:") and "bytes" in k and v is False for k, v in p.assign.items()) and not any(k.endswith(":str") and v is True for k, v in p.assign.items()) and not any("Ellipsis" in k and v is True for k, v in p.assign.items())]
-    if bytes_repr:
+    if bytes_repr and refuses_outer_quote:
+        rr.ok("bytes", sample={"rule": "C04-R4", "verdict": "repr() may pick the enclosing quote, but such a field is refused"})
+    elif bytes_repr:
         rr.fail(
             "C04-R4|Constant|bytes|repr-quote",
             f"{U.gen_map['Constant'].where()}: bytes constants are rendered by repr(), which ignores the quote chosen for the nesting level: inside a replacement field `f'{{b\"x\"}}'` becomes `f'{{b'x'}}'` (a syntax error before Python 3.12)",
